@@ -901,6 +901,7 @@ ASSUMPTIONS = ['exact arithmetic: limits/coordinates are dyadic so that float re
                'the quotients in boundary fractions, floating indices and non-dyadic uniform grids)',
                'np.isclose / np.allclose decisions (nodes_on_bdry, is_uniform, consistency of four given parameters, '
                'rounding of the computed shape) are modelled as exact equality; inputs stay away from the tolerance band']
+ASSUMPTIONS.append('Q2R transfer of the executed model is PROVED (C14/Transfer.v, theorems transfer_*), not assumed')
 ASSUMPTIONS.append('the model is pure: observables are functions of (set, grid) only; independence from object history, '
                    'caches and caller-side writes is validated by the history cases and the aliasing probes, not proved')
 TRUSTED = ['translate/partition.py (Python ast -> Gallina, fail-closed; typed expression grammar in its docstring)',
@@ -918,9 +919,12 @@ LEVEL_TEXT = ('Proof: for a hand-written Coq model of RectPartition / RectGrid /
               'same partition with that cell side. Five literal-text violations are proved as _refuted and listed as '
               'findings (one-point axes: cell size 0.0 and nodes_on_bdry placement; stepped slices / index lists keep the '
               'hull; integers below -n accepted; zero-extent axes have non-strict boundaries).')
-LEVEL_NOTE = ('Also proved: byaxis (selected axes unchanged), ellipsis / too-few-indices / integer normalisation, default '
+LEVEL_NOTE = ('The gmin/gmax formulas, completion formulas, boundary fractions, midpoint rule, index edge rules and the '
+              'integer bounds test are REGENERATED from /repo (Gen/Partition.v) and the model is proved to be built from them; '
+              'the model run at Q is proved to be the restriction of the model at R. Also proved: byaxis (selected axes unchanged), ellipsis / too-few-indices / integer normalisation, default '
               'limits of nonuniform_partition and uniform_partition_fromgrid (also explicit ones), increasing index lists, rejection of negative steps, squeeze(axis=i). Validated, not proved: the model itself '
               '(correspondence), unsorted/negative index lists, single-point negative steps, squeeze(axis=list|slice). '
               'np.isclose/allclose decisions are modelled as exact equality; float rounding is out of scope. '
               'Axioms: classical reals + funext as printed by Print Assumptions (insert/append/squeeze theorems are closed).')
-TECHNIQUE = 'Coq proofs by list induction over a hand-written model + in-Coq differential correspondence'
+TECHNIQUE = ('Coq proofs by list induction over a hand-written model built from source-regenerated formulas '
+             '(translate/partition.py) + proved Q2R transfer + in-Coq differential correspondence')
